@@ -24,7 +24,7 @@ _G = {}
 EVENT_WRITES = ("ins1", "bulk2", "bulk49", "bulk50", "bulk51", "mix", "ups", "ups2", "rep", "repl", "del")
 BUCKET_OPS = ("mkB2", "updB2", "delB2", "updB1")
 READS = ("get", "get_id", "count")
-FAULT_OPS = ("delB2x", "updB2x", "staleB2bulk")  # operations that must raise and change nothing
+FAULT_OPS = ("delB2x", "updB2x", "staleB2bulk", "badbulk")  # operations that must raise and change nothing
 SINGLE_OR_BUCKET = ("ins1", "rep", "repl", "del", "mkB2", "updB2", "delB2", "updB1", "insB2")
 
 
@@ -214,6 +214,12 @@ class World:
             ds.delete_bucket("B2")
         elif op == "updB2x":
             ds.update_bucket("B2", type_id="nope")
+        elif op == "badbulk":
+            # a bulk insert into B1 that is rejected (event data that cannot be serialised)
+            e1, _ = m.new_event("B1")
+            e2, _ = m.new_event("B1")
+            e2.data["bad"] = object()
+            ds["B1"].insert([e1, e2])
         elif op == "staleB2bulk":
             e1, _ = m.new_event("B2")
             e2, _ = m.new_event("B2")
